@@ -48,6 +48,9 @@ func runScenario(sc *conc.Scenario, copies, rounds int) (mismatch string) {
 		}
 		close(start)
 		wg.Wait()
+		if sc.Fresh {
+			expected = w.ExpectedAfter()
+		}
 		for _, s := range slots {
 			for k := range s.out {
 				if s.out[k] != expected[s.t][k] {
